@@ -440,6 +440,12 @@ def run_threaded(case, seed, smart=False, duration=1.2, yield_q=0.02, poll_busy=
         used = quiesce(cs2, rng)
         if used is None:
             probs.append(("not_quiescent_after_threads_stopped",))
+            try:
+                pend = list(cs2.state.changes)
+                stats["log_about_first_bad_path"] = (["PENDING %s" % (e,) for e in pend[:6]] +
+                                                     [l for l in list(logbuf)[-60:]])
+            except Exception:       # noqa
+                pass
         else:
             L, R = tree(provs[0], roots[0]), tree(provs[1], roots[1])
             stats["final_objects"] = len(L)
